@@ -157,6 +157,21 @@ def main(tier: str) -> int:
                         continue
                     if got != want[integ]:
                         run.violation(dict(key, clause="result-differs"), f"schedule {list(sched)}: {len(got)} items vs {len(want[integ])} all at once", rp)
+            if len(sched) <= 2:
+                # the same schedule behind a BufferedReader that is NOT seekable (socket.makefile('rb'), a pipe opened buffered): what the outer buffer
+                # has read ahead belongs to the stream as well
+                for integ in ("generic", "rdflib"):
+                    evaluations += 1
+                    key = {"source": "non-seekable-buffered", "integ": integ, "first_read_lt_3": bool(sched) and sched[0] < 3 and len(data) >= 3,
+                           "framing": "delimited" if delim else "single"}
+                    rp = {"stream": label, "schedule": list(sched), "hex": data.hex()}
+                    try:
+                        got = impl.parse(integ, io.BufferedReader(framing.ChunkedRaw(data, sched, then=64), buffer_size=32), "flat")
+                    except Exception as ex:  # noqa: BLE001
+                        run.violation(dict(key, clause="raised"), f"BufferedReader over a pipe, schedule {list(sched)}: {type(ex).__name__}: {str(ex)[:80]}", rp)
+                        continue
+                    if got != want[integ]:
+                        run.violation(dict(key, clause="result-differs"), f"BufferedReader over a pipe, schedule {list(sched)}: {len(got)} items vs {len(want[integ])} all at once", rp)
             if delim and len(sched) <= 2:
                 evaluations += 1
                 try:
